@@ -11,6 +11,9 @@ SEED = int(os.environ.get("VERIF_SEED", "0") or 0)
 NCORES = int(os.environ.get("VERIF_JOBS", "0") or 0) or (os.cpu_count() or 4)
 MEM_KB = int(os.environ.get("VERIF_MEM_KB", str(14 * 1024 * 1024)))
 
+# a run against a scratch copy of the repository (seeded change) must not overwrite the evidence of /repo
+EVIDENCE_DIR = os.environ.get("VERIF_EVIDENCE_DIR", os.path.join(VERIF, "evidence"))
+REPLAY_DIR = os.environ.get("VERIF_REPLAY_DIR", os.path.join(VERIF, "replays"))
 _workdir = None
 T_START = time.time()
 def workdir():
@@ -43,7 +46,7 @@ class Job:
     def __init__(self, name, source_text, entry, enforce=None, enforce_rec=None, replace=(),
                  loop_contracts=True, cbmc_flags=(), cc_flags=(), timeout=900,
                  expect_fail=(), backend="cbmc-sat-contracts", note="", bounded=None,
-                 must_have=(), nondet_static=False, split=0, split_procs=None, unwind_fns=()):
+                 must_have=(), nondet_static=False, split=0, split_procs=None, unwind_fns=(), unwind_by_line=None):
         self.name = name; self.source_text = source_text; self.entry = entry
         self.enforce = enforce; self.enforce_rec = enforce_rec; self.replace = list(replace)
         self.loop_contracts = loop_contracts; self.cbmc_flags = list(cbmc_flags)
@@ -52,7 +55,7 @@ class Job:
         self.backend = backend; self.note = note; self.bounded = bounded
         self.must_have = list(must_have)          # obligation-name regexes that must be present (e.g. loop_invariant_step)
         self.nondet_static = nondet_static
-        self.split = split; self.split_procs = split_procs or NCORES; self.unwind_fns = list(unwind_fns)
+        self.split = split; self.split_procs = split_procs or NCORES; self.unwind_fns = list(unwind_fns); self.unwind_by_line = unwind_by_line
         self.check_flags = ["--bounds-check", "--pointer-check", "--signed-overflow-check", "--div-by-zero-check",
                             "--pointer-overflow-check"]
         # results
@@ -94,6 +97,21 @@ class Job:
             self.status = "error"; self.reason = "goto-instrument (checks) failed"; return self._fin(log, t0)
         cur = "c.gb"
         flags = ["--no-standard-checks", "--unwinding-assertions", "--slice-formula", "--trace"] + self.cbmc_flags
+        if self.unwind_by_line:
+            # per-loop bounds chosen from the loop's own header text (tight bounds keep symbolic execution small;
+            # every bound is protected by an unwinding assertion)
+            rc, out = step("cbmc --show-loops %s" % cur, 120)
+            tu_lines = self.source_text.splitlines()
+            us = []
+            for m in re.finditer(r"^Loop (\S+):\n\s+file (\S+) line (\d+) function (\S+)", out, re.M):
+                lid, fil, ln, fn = m.group(1), m.group(2), int(m.group(3)), m.group(4)
+                text = tu_lines[ln - 1] if fil.endswith("tu.c") and ln - 1 < len(tu_lines) else ""
+                if not fil.endswith("tu.c"):
+                    try: text = open(fil).read().splitlines()[ln - 1]
+                    except Exception: text = ""
+                b = self.unwind_by_line(fn, text)
+                if b: us.append("%s:%d" % (lid, b))
+            if us: flags += ["--unwindset", ",".join(us)]
         if self.unwind_fns:
             # unwind only the named functions' remaining loops (library loops of the contract instrumentation are left alone)
             rc, out = step("cbmc --show-loops %s" % cur, 120)
@@ -257,8 +275,8 @@ class Report:
                 if len(self.samples) < 12: self.samples.append("%s: [%s] %s: %s" % (j.name, n, d, s))
 
     def _save_log(self, j):
-        os.makedirs(os.path.join(VERIF, "replays"), exist_ok=True)
-        p = os.path.join(VERIF, "replays", "%s-%s.log" % (self.prop, re.sub(r"[^A-Za-z0-9_.-]", "_", j.name)))
+        os.makedirs(REPLAY_DIR, exist_ok=True)
+        p = os.path.join(REPLAY_DIR, "%s-%s.log" % (self.prop, re.sub(r"[^A-Za-z0-9_.-]", "_", j.name)))
         with open(p, "w") as f: f.write(j.log[-400000:])
         return p
 
@@ -271,8 +289,8 @@ class Report:
 
     def finish(self, replayer=None):
         """replayer(violation dict) -> dict(replayed=bool, input=..., observed=..., cmd=...) or None"""
-        os.makedirs(os.path.join(VERIF, "evidence"), exist_ok=True)
-        os.makedirs(os.path.join(VERIF, "replays"), exist_ok=True)
+        os.makedirs(EVIDENCE_DIR, exist_ok=True)
+        os.makedirs(REPLAY_DIR, exist_ok=True)
         lines = []
         nviol = 0
         for v in self.violations:
@@ -293,7 +311,7 @@ class Report:
                     except Exception as e: rp = dict(replayed=False, error=repr(e))
                     self._replay_cache[fam] = rp
             rp = rp or dict(replayed=False)
-            path = os.path.join(VERIF, "replays", "%s-%s.json" % (self.prop, re.sub(r"[^A-Za-z0-9_.-]", "_", key))[:180])
+            path = os.path.join(REPLAY_DIR, "%s-%s.json" % (self.prop, re.sub(r"[^A-Za-z0-9_.-]", "_", key))[:180])
             body = dict(property=self.prop, failed_obligation=v["obligation"], job=v["job"], description=v["desc"],
                         verifier_output=v["trace"][-20000:], replay=rp)
             if v.get("jobobj") is not None:
@@ -321,7 +339,7 @@ class Report:
         cov.update(self.extra)
         ev = dict(property_id=self.prop, tier=TIER if TIER in ("quick", "thorough") else "quick", seed=SEED, level=self.level,
                   coverage=cov, assumptions=self.assumptions, wall_s=round(time.time() - self.t0, 1), violations=nviol)
-        with open(os.path.join(VERIF, "evidence", self.prop + ".json"), "w") as f:
+        with open(os.path.join(EVIDENCE_DIR, self.prop + ".json"), "w") as f:
             json.dump(ev, f, indent=1, default=str)
         for l in lines: print(l)
         print("%s: %d obligations, %d discharged, %d violations, %d undecided, %.0fs" % (self.prop, obl, dis, nviol, len(self.undecided), time.time() - self.t0))
